@@ -50,3 +50,28 @@ Proof. vm_compute. reflexivity. Qed.
 Print Assumptions C09_try_total.
 Print Assumptions C09_loop_terminates.
 Print Assumptions C09_err_is_noop.
+
+(* ---------- every operation that can report Err (ArenaErr.v) ---------- *)
+From BV Require Import ArenaErr.
+Theorem C09_err_is_noop_every_operation : forall k A b o,
+  match o with OAlloc _ | OGrow _ _ _ _ | OShrink _ _ _ | ORealloc _ _ _ | OWithCapacity _ => True | _ => False end ->
+  clean_err (snd (step k A b o)) -> fst (step k A b o) = b.
+Proof. exact err_is_noop. Qed.
+
+Theorem C09_err_keeps_memory : forall k A b o,
+  match o with OAlloc _ | OGrow _ _ _ _ | OShrink _ _ _ | ORealloc _ _ _ | OWithCapacity _ => True | _ => False end ->
+  clean_err (snd (step k A b o)) ->
+  held k (fst (step k A b o)) = held k b /\ chunks (fst (step k A b o)) = chunks b /\ limit (fst (step k A b o)) = limit b.
+Proof. exact err_keeps_held. Qed.
+
+(* after a refusal, a request that fits the current chunk is still served, in place, whatever the
+   global allocator would answer *)
+Theorem C09_err_then_fitting_request_succeeds : forall k A b o A' l p b1,
+  match o with OAlloc _ | OGrow _ _ _ _ | OShrink _ _ _ | ORealloc _ _ _ | OWithCapacity _ => True | _ => False end ->
+  clean_err (snd (step k A b o)) -> fast k b l = Some (p, b1) ->
+  o_res (snd (try_alloc k A' (fst (step k A b o)) l)) = ROk p /\ o_reqs (snd (try_alloc k A' (fst (step k A b o)) l)) = [].
+Proof. exact err_then_fitting_request. Qed.
+
+Print Assumptions C09_err_is_noop_every_operation.
+Print Assumptions C09_err_keeps_memory.
+Print Assumptions C09_err_then_fitting_request_succeeds.
